@@ -143,19 +143,53 @@ func (s *Service) CopyWithOptions(options ServiceOptions, targetOptions TargetOp
 		return nil, err
 	}
 
-	service.active = s.active
-	service.rollout = s.rollout
+	service.active, service.rollout, service.rolloutController = s.slots()
 	service.pauseController = s.pauseController
-	service.rolloutController = s.rolloutController
 
 	return service, service.initialize()
 }
 
 func (s *Service) Dispose() {
-	s.active.Dispose()
-	if s.rollout != nil {
-		s.rollout.Dispose()
+	active, rollout, _ := s.slots()
+
+	active.Dispose()
+	if rollout != nil {
+		rollout.Dispose()
 	}
+}
+
+// tlsOptions returns the TLS settings in force. For services that do not serve
+// the root path they are inherited (and kept up to date) from the root service
+// of their host, so they are read and written under the service lock.
+func (s *Service) tlsOptions() (enabled bool, redirect bool) {
+	s.serviceLock.Lock()
+	defer s.serviceLock.Unlock()
+
+	return s.options.TLSEnabled, s.options.TLSRedirect
+}
+
+func (s *Service) setTLSOptions(enabled bool, redirect bool) {
+	s.serviceLock.Lock()
+	defer s.serviceLock.Unlock()
+
+	s.options.TLSEnabled = enabled
+	s.options.TLSRedirect = redirect
+}
+
+func (s *Service) currentOptions() ServiceOptions {
+	s.serviceLock.Lock()
+	defer s.serviceLock.Unlock()
+
+	return s.options
+}
+
+// slots returns the load balancers and the rollout controller currently in
+// place. They are replaced under the service lock, so read them under it too.
+func (s *Service) slots() (active *LoadBalancer, rollout *LoadBalancer, rolloutController *RolloutController) {
+	s.serviceLock.Lock()
+	defer s.serviceLock.Unlock()
+
+	return s.active, s.rollout, s.rolloutController
 }
 
 func (s *Service) UpdateLoadBalancer(lb *LoadBalancer, slot TargetSlot) *LoadBalancer {
@@ -217,19 +251,21 @@ type marshalledService struct {
 }
 
 func (s *Service) MarshalJSON() ([]byte, error) {
+	active, rollout, rolloutController := s.slots()
+
 	var rolloutTargets []string
-	if s.rollout != nil {
-		rolloutTargets = s.rollout.Targets().Names()
+	if rollout != nil {
+		rolloutTargets = rollout.Targets().Names()
 	}
 
 	return json.Marshal(marshalledService{
 		Name:              s.name,
-		ActiveTargets:     s.active.Targets().Names(),
+		ActiveTargets:     active.Targets().Names(),
 		RolloutTargets:    rolloutTargets,
-		Options:           s.options,
+		Options:           s.currentOptions(),
 		TargetOptions:     s.targetOptions,
 		PauseController:   s.pauseController,
-		RolloutController: s.rolloutController,
+		RolloutController: rolloutController,
 	})
 }
 
@@ -337,23 +373,27 @@ func (s *Service) initialize() error {
 }
 
 func (s *Service) Drain(timeout time.Duration) {
+	active, rollout, _ := s.slots()
+
 	PerformConcurrently(
 		func() {
-			s.active.DrainAll(timeout)
+			active.DrainAll(timeout)
 		},
 		func() {
-			if s.rollout != nil {
-				s.rollout.DrainAll(timeout)
+			if rollout != nil {
+				rollout.DrainAll(timeout)
 			}
 		},
 	)
 }
 
 func (s *Service) loadBalancerForRequest(req *http.Request) *LoadBalancer {
-	lb := s.active
-	if s.rollout != nil && s.rolloutController != nil && s.rolloutController.RequestUsesRolloutGroup(req) {
+	active, rollout, rolloutController := s.slots()
+
+	lb := active
+	if rollout != nil && rolloutController != nil && rolloutController.RequestUsesRolloutGroup(req) {
 		slog.Debug("Using rollout for request", "service", s.name, "path", req.URL.Path)
-		lb = s.rollout
+		lb = rollout
 	}
 
 	return lb
@@ -421,7 +461,7 @@ func (s *Service) serviceRequestWithTarget(w http.ResponseWriter, r *http.Reques
 		return
 	}
 
-	if !s.options.TLSEnabled && r.TLS != nil {
+	if tlsEnabled, _ := s.tlsOptions(); !tlsEnabled && r.TLS != nil {
 		SetErrorResponse(w, r, http.StatusServiceUnavailable, nil)
 		return
 	}
@@ -436,7 +476,8 @@ func (s *Service) serviceRequestWithTarget(w http.ResponseWriter, r *http.Reques
 }
 
 func (s *Service) shouldRedirectToHTTPS(r *http.Request) bool {
-	return s.options.TLSEnabled && s.options.TLSRedirect && r.TLS == nil
+	tlsEnabled, tlsRedirect := s.tlsOptions()
+	return tlsEnabled && tlsRedirect && r.TLS == nil
 }
 
 func (s *Service) handlePausedAndStoppedRequests(w http.ResponseWriter, r *http.Request) bool {
